@@ -114,5 +114,11 @@ def main():
         except Exception as e:
             C.log("setup hook of %s failed: %r" % (name, e))
             ok = False
-    C.log("setup %s in %.0fs" % ("ok" if ok else "FAILED", time.time() - t0))
-    return 0 if ok else 1
+    # Setup only warms the build caches: every check rebuilds what it needs from the current tree and reports a
+    # piece that does not build as a broken obligation of ITS property.  A failure here must therefore not keep
+    # the other properties' checks from running: report it loudly, exit 0 (VERIF_SETUP_STRICT=1: exit 1).
+    C.log("setup %s in %.0fs" % ("ok" if ok else "INCOMPLETE (see FAILED lines above; the affected checks will report it)",
+                                 time.time() - t0))
+    if not ok and os.environ.get("VERIF_SETUP_STRICT") == "1":
+        return 1
+    return 0
